@@ -443,15 +443,16 @@ func (C15) Shrink(c kernel.Case) []kernel.Case {
 	if c.Decode(&d) != nil {
 		return nil
 	}
-	return shrinkScenario(&d.Scenario, func(s Scenario) kernel.Case {
+	return shrinkScenario(&d.Scenario, false, func(s Scenario) kernel.Case {
 		e := d
 		e.Scenario = s
 		return kernel.NewCase("C15", d.Batch, e)
 	})
 }
 
-// shrinkScenario proposes simpler scenarios.
-func shrinkScenario(sc *Scenario, mk func(Scenario) kernel.Case) []kernel.Case {
+// shrinkScenario proposes simpler scenarios. fixedQuery: the query and the flags are bound to a
+// hand-written model (C16 order/stream/args kinds) and must stay as they are.
+func shrinkScenario(sc *Scenario, fixedQuery bool, mk func(Scenario) kernel.Case) []kernel.Case {
 	var out []kernel.Case
 	add := func(s Scenario) { out = append(out, mk(s)) }
 	if len(sc.Plan.Chunks) > 0 || sc.Plan.Rest != 0 || sc.Plan.EOFWithData {
@@ -462,6 +463,9 @@ func shrinkScenario(sc *Scenario, mk func(Scenario) kernel.Case) []kernel.Case {
 		add(s)
 	}
 	for i := range sc.Flags {
+		if fixedQuery {
+			break
+		}
 		if sc.Flags[i] == "--stream" || sc.Flags[i] == "-R" || sc.Flags[i] == "--indent" {
 			continue
 		}
@@ -470,7 +474,7 @@ func shrinkScenario(sc *Scenario, mk func(Scenario) kernel.Case) []kernel.Case {
 		add(s)
 	}
 	parts := strings.Split(sc.Query, ", ")
-	if len(parts) > 1 {
+	if len(parts) > 1 && !fixedQuery {
 		for i := range parts {
 			s := *sc
 			s.Query = strings.Join(append(append([]string{}, parts[:i]...), parts[i+1:]...), ", ")
